@@ -8,7 +8,9 @@ From Coq Require Import List Arith NArith Bool.
 From V.gen Require ConnExits.
 From V.Mgr Require Import Model Caps.
 From V.Ts Require Import Report ReportProofs.
-From V.C07 Require Import Model Proofs Compose Block BlockProofs.
+From V.gen Require ConnSkel.
+From V.Ts Require Names.
+From V.C07 Require Import Model Proofs Compose Block BlockProofs Skel SkelProofs Loop LoopProofs.
 Import ListNotations.
 Open Scope N_scope.
 
@@ -392,6 +394,174 @@ Theorem C07_block_waits_until_drained :
   busy_at me (s_ch (fst (brun s es))) p = true /\ cnt_out (is_mgr me) (snd (brun s es)) = 0%nat.
 Proof. exact waits_until_drained. Qed.
 Print Assumptions C07_block_waits_until_drained.
+
+(* ---------------------------------------------------------------------------------------- *)
+(* part 4: the statement-level skeleton of the loops, read from the source on every check      *)
+(* (coq/gen/ConnSkel.v, tools/gen_c07_skel.py; semantics coq/C07/Skel.v)                        *)
+
+(* What the extracted select! branches, match arms, calls and result handling of tcp/connection.rs mean
+   IS the behaviour model: same notes, the loop goes on exactly when the model's does, and `start` returns
+   Err exactly when the loop ended and the closed report returned an error. A report call added, removed or
+   reordered in an arm, an error propagated with `?` instead of logged, a new arm: this proof breaks. *)
+Theorem C07_tcp_skeleton_is_model :
+  forall t e, gone t = None -> in_range t e = true ->
+  agrees (skel_step ConnSkel.tcp_start ConnSkel.tcp_handlers t e) t e.
+Proof. exact tcp_skel_is_cstep. Qed.
+Print Assumptions C07_tcp_skeleton_is_model.
+
+(* The WebSocket and QUIC loops (one function each, handlers inline) to the same depth. *)
+Theorem C07_ws_skeleton_is_model :
+  forall t e, gone t = None -> in_range t e = true -> agrees (skel_step ConnSkel.ws_start [] t e) t e.
+Proof. exact ws_skel_is_cstep. Qed.
+Print Assumptions C07_ws_skeleton_is_model.
+
+Theorem C07_quic_skeleton_is_model :
+  forall t e, gone t = None -> in_range t e = true -> agrees (skel_step ConnSkel.quic_start [] t e) t e.
+Proof. exact quic_skel_is_cstep. Qed.
+Print Assumptions C07_quic_skeleton_is_model.
+
+(* The loops have exactly the three branches connection / negotiation results / commands, the `if` guard is
+   on the negotiation-results branch only, and the extractor recognised everything around them. *)
+Theorem C07_skeleton_shape :
+  guards_ok ConnSkel.tcp_start = true /\ guards_ok ConnSkel.ws_start = true /\ guards_ok ConnSkel.quic_start = true /\
+  map fst ConnSkel.tcp_start = [1; 2; 3] /\ map fst ConnSkel.ws_start = [1; 2; 3] /\ map fst ConnSkel.quic_start = [1; 2; 3] /\
+  ConnSkel.tcp_skel_complete = true /\ ConnSkel.ws_skel_complete = true /\ ConnSkel.quic_skel_complete = true.
+Proof. exact guards_on_negotiation_branch_only. Qed.
+Print Assumptions C07_skeleton_shape.
+
+(* The one way a loop can die without a report: protocol_codec's `.expect("protocol to exist")` for a
+   substream negotiated for a protocol that is not in the set (hypothesis in_range above) ... *)
+Theorem C07_codec_panic_site :
+  forall t i ob, (i <? length (alive t))%nat = false ->
+  snd (skel_step ConnSkel.tcp_start ConnSkel.tcp_handlers t (ENeg (NegOk i ob))) = Some RPanic /\
+  snd (skel_step ConnSkel.ws_start [] t (ENeg (NegOk i ob))) = Some RPanic /\
+  snd (skel_step ConnSkel.quic_start [] t (ENeg (NegOk i ob))) = Some RPanic.
+Proof. exact skel_panics_out_of_range. Qed.
+Print Assumptions C07_codec_panic_site.
+
+(* ... which the name tables of ProtocolSet::new (coq/Ts/Names.v) exclude: every name the set offers for
+   negotiation (main or fallback) resolves to a protocol of the set. *)
+Theorem C07_codec_total :
+  forall tbl nm, NoDup (Names.all_names tbl) -> Names.classify tbl nm <> None ->
+  exists i, proto_index tbl nm = Some i /\ (i < length tbl)%nat.
+Proof. exact codec_total. Qed.
+Print Assumptions C07_codec_total.
+
+Theorem C07_advertised_in_range :
+  forall tbl nm t ob, NoDup (Names.all_names tbl) -> Names.classify tbl nm <> None -> length (alive t) = length tbl ->
+  exists i, proto_index tbl nm = Some i /\ in_range t (ENeg (NegOk i ob)) = true.
+Proof. exact advertised_in_range. Qed.
+Print Assumptions C07_advertised_in_range.
+
+(* The accept futures of TCP, WebSocket, QUIC and WebRTC as extracted (`report_connection_established(..)
+   .await?`, then the loop is spawned and its result is not looked at, then Ok(())) are the model's accept. *)
+Theorem C07_accept_skeleton :
+  forall a al mup,
+  a = ConnSkel.tcp_accept \/ a = ConnSkel.ws_accept \/ a = ConnSkel.quic_accept \/ a = ConnSkel.webrtc_accept ->
+  accept_skel a al = (snd (accept al mup), Some true) /\ fst (accept al mup) = Some (mkTask al mup None).
+Proof. exact accept_skel_is_accept. Qed.
+Print Assumptions C07_accept_skeleton.
+
+(* The statements of ProtocolSet::report_connection_closed as extracted (fan-out to every protocol, the
+   sends are awaited, THEN the manager is told, with `?`; the first protocol error is returned at the end)
+   mean report_closed: protocols before the manager is a fact about the source text. *)
+Theorem C07_report_closed_skeleton :
+  forall al mup, pset_result al mup ConnSkel.pset_report_connection_closed = Some (report_closed al mup).
+Proof. exact pset_closed_is_report_closed. Qed.
+Print Assumptions C07_report_closed_skeleton.
+
+Theorem C07_report_established_skeleton :
+  forall al mup, pset_result al mup ConnSkel.pset_report_connection_established = Some (report_established al).
+Proof. exact pset_established_is_report_established. Qed.
+Print Assumptions C07_report_established_skeleton.
+
+(* WebRTC (feature crate): every `return` of run_event_loop is `return self.on_connection_closed().await`,
+   there is no `?` and no `break` in it, and on_connection_closed ends with the closed report after
+   statements that cannot leave the function. *)
+Theorem C07_webrtc_exits_report :
+  ConnSkel.webrtc_loop_found = true /\ ConnSkel.webrtc_loop_exits <> [] /\
+  forallb webrtc_exit_ok ConnSkel.webrtc_loop_exits = true /\
+  ends_with_closed_report ConnSkel.webrtc_on_connection_closed = true.
+Proof. exact webrtc_exits_report. Qed.
+Print Assumptions C07_webrtc_exits_report.
+
+(* Litep2p::next_event: the manager's ConnectionClosed / ConnectionEstablished become the application's
+   events of the same name, nothing else does, and neither is swallowed by the `_ => {}` arm. *)
+Theorem C07_app_event_map :
+  app_map ConnSkel.TEV_CLOSED = Some ConnSkel.APP_CLOSED /\ app_map ConnSkel.TEV_ESTABLISHED = Some ConnSkel.APP_ESTABLISHED /\
+  (forall v, In v ConnSkel.transport_event_variants -> app_map v = Some ConnSkel.APP_CLOSED -> v = ConnSkel.TEV_CLOSED) /\
+  (forall v, In v ConnSkel.transport_event_variants -> app_map v = Some ConnSkel.APP_ESTABLISHED -> v = ConnSkel.TEV_ESTABLISHED) /\
+  In ConnSkel.TEV_CLOSED ConnSkel.transport_event_variants /\ In ConnSkel.TEV_ESTABLISHED ConnSkel.transport_event_variants /\
+  In ConnSkel.APP_CLOSED ConnSkel.app_event_variants /\ In ConnSkel.APP_ESTABLISHED ConnSkel.app_event_variants /\
+  NoDup (map fst ConnSkel.app_map_arms).
+Proof. exact app_map_closed_established. Qed.
+Print Assumptions C07_app_event_map.
+
+(* ---------------------------------------------------------------------------------------- *)
+(* part 5: the loop with what feeds it (coq/C07/Loop.v): command channel, handles, remote end,  *)
+(* names; tied by the loop-level harness stream that polls the real `start()` future by hand     *)
+
+(* A loop-level run is a run of the loop model on the events the operations cause. *)
+Theorem C07_loop_is_model_run :
+  forall ops s,
+  l_task (fst (lrun s ops)) = fst (crun (l_task s) (all_events s ops)) /\
+  snd (lrun s ops) = snd (crun (l_task s) (all_events s ops)).
+Proof. exact lrun_is_crun. Qed.
+Print Assumptions C07_loop_is_model_run.
+
+(* Exactly once, from accept to the end, for every script of protocol actions, remote actions, protocol
+   exits and races: established once to whoever runs at accept; when the loop has ended, closed once to the
+   manager and to every protocol still running. *)
+Theorem C07_loop_lifecycle :
+  forall al fb ops,
+  let r := whole_run al fb ops in
+  let t' := l_task (fst r) in
+  gone t' <> None ->
+  (forall i, cnt (is_est_of i) (snd r) = if nth i al false then 1%nat else 0%nat) /\
+  cnt is_mgr_closed (snd r) = (if mgr_up t' then 1%nat else 0%nat) /\
+  (forall i, cnt (is_closed_of i) (snd r) = if nth i (alive t') false then 1%nat else 0%nat) /\
+  (forall i, nth i (alive t') false = true -> nth i al false = true).
+Proof. exact loop_lifecycle. Qed.
+Print Assumptions C07_loop_lifecycle.
+
+Theorem C07_loop_silent_while_running :
+  forall al fb ops, let r := whole_run al fb ops in
+  gone (l_task (fst r)) = None -> cnt is_close_note (snd r) = 0%nat.
+Proof. exact loop_silent_while_running. Qed.
+Print Assumptions C07_loop_silent_while_running.
+
+(* Idle expiry / "a local protocol having shut down": the command stream ends exactly when the last strong
+   sender is gone — a connection that still runs is held by some protocol, or by the permit of a substream
+   negotiation that is still pending. *)
+Theorem C07_loop_running_is_held :
+  forall al fb ops, let s := fst (whole_run al fb ops) in running s = true -> any_strong (l_handle s) (l_pend s) = true.
+Proof. exact loop_running_is_held. Qed.
+Print Assumptions C07_loop_running_is_held.
+
+(* The operations that end a connection are exactly: force-close through a held handle, the remote closing,
+   the last handle being dropped (alone, or racing with an inbound substream that is refused its permit).
+   A protocol or the manager's receiver going away, a substream opening or failing, never do. *)
+Theorem C07_loop_ends_iff_cause :
+  forall s o, running s = true -> (running (fst (lstep s o)) = false <-> ends_conn s o = true).
+Proof. exact loop_ends_iff_cause. Qed.
+Print Assumptions C07_loop_ends_iff_cause.
+
+(* Every event the operations feed to the loop satisfies the hypothesis of the skeleton theorems. *)
+Theorem C07_loop_events_in_range :
+  forall s o e fb, l_tbl s = mk_tbl (nprot s) fb -> In e (events_of s o) -> is_loop_event e = true ->
+  forall t, length (alive t) = nprot s -> in_range t e = true.
+Proof. exact loop_events_in_range. Qed.
+Print Assumptions C07_loop_events_in_range.
+
+(* The exit arm the harness reads from the log and the Ok/Err result of `start()` determine the pair of
+   exit sites of the TCP table the model records. *)
+Theorem C07_tcp_arm_site :
+  forall t e i o, gone t = None -> gone (fst (cstep t e)) = Some (i, o) ->
+  let ok := all_alive (alive t) && mgr_up t in
+  (1 <= arm_of e)%N /\ i = (2 * (N.to_nat (arm_of e) - 1) + (if ok then 1 else 0))%nat /\
+  state_code (fst (cstep t e)) = (if ok then 1 else 2).
+Proof. exact tcp_arm_site. Qed.
+Print Assumptions C07_tcp_arm_site.
 
 (* non-vacuity: two protocols with channels of capacity 1. Connection 0 is accepted; the accept of
    connection 1 has to wait; connection 0 ends and its closed report has to wait too (the manager is not
